@@ -141,10 +141,23 @@ def sort_of(ty: Ty):
     if isinstance(ty, TObj):
         return z3.IntSort()
     if isinstance(ty, TList):
-        return z3.ArraySort(z3.IntSort(), sort_of(ty.elem))  # length carried separately
+        return list_sort(ty.elem)      # a list as an *element* of another list: datatype (length, array)
     if isinstance(ty, TSet):
         return z3.ArraySort(sort_of(ty.elem), z3.BoolSort())
     raise Unsupported(f"no SMT sort for {ty}")
+
+
+_LIST_SORTS = {}
+
+
+def list_sort(ety):
+    """datatype of lists of ety used where a list is itself an element (list of lists): mk(len, arr)"""
+    key = repr(ety)
+    if key not in _LIST_SORTS:
+        d = z3.Datatype("ListOf_" + "".join(ch if ch.isalnum() else "_" for ch in key))
+        d.declare("mk", ("len", z3.IntSort()), ("arr", z3.ArraySort(z3.IntSort(), sort_of(ety))))
+        _LIST_SORTS[key] = d.create()
+    return _LIST_SORTS[key]
 
 
 class Unsupported(Exception):
@@ -293,6 +306,9 @@ def type_constraints(v) -> list:
     out = []
     if isinstance(v, SList):
         out.append(v.n >= 0)
+        if isinstance(v.ety, TList):
+            i = z3.Int(fresh_name("wf_i"))
+            out.append(z3.ForAll([i], list_sort(v.ety.elem).len(v.a[i]) >= 0))
         if v.ety is TNet:
             i = z3.Int(fresh_name("wf_i"))
             out.append(z3.ForAll([i], wf_net(v.a[i])))
@@ -350,6 +366,11 @@ def to_term(v, ty=None):
         return z3.StringVal(v)
     if z3.is_expr(v):
         return v
+    if isinstance(v, SList):
+        return list_sort(v.ety).mk(v.n, v.a)
+    if isinstance(v, (list, tuple)) and (ty is not None or v):
+        L = list_from_concrete(list(v), ty.elem if isinstance(ty, TList) else None)
+        return list_sort(L.ety).mk(L.n, L.a)
     raise Unsupported(f"to_term({v!r})")
 
 
@@ -382,11 +403,16 @@ def default_term(ty):
         return z3.StringVal("")
     if ty is TNet:
         return Net.mk_net(z3.BitVecVal(0, 64), 0)
+    if isinstance(ty, TList):
+        return list_sort(ty.elem).mk(z3.IntVal(0), z3.K(z3.IntSort(), default_term(ty.elem)))
     raise Unsupported(f"default_term({ty})")
 
 
 def wrap(ty, t):
     """Wrap a z3 term of element type ty as a value; constants are folded back to Python values."""
+    if isinstance(ty, TList):
+        ls = list_sort(ty.elem)
+        return SList(ty.elem, ls.len(t), ls.arr(t))
     if ty in (TInt, TBool, TStr):
         t = z3.simplify(t) if z3.is_expr(t) else t
         if z3.is_int_value(t):
